@@ -108,6 +108,29 @@ theorem canon_idem {bs p} (hp : parsePackage bs = .ok p) : canon (canon bs) = ca
   rw [h1] at this
   exact this.symm
 
+/-- the canonical form of an accepted byte string is accepted, with the SAME value -/
+theorem canon_accepted {bs p} (hp : parsePackage bs = .ok p) : parsePackage (canon bs) = .ok p := by
+  obtain ⟨h1, h2, _⟩ := package_roundtrip hp
+  rw [← h1]; exact h2
+
+/-- **the parser loses nothing but the permitted difference**: two accepted byte strings with the same parsed value
+have the same canonical bytes (they differ at most in the reserved bytes and the signature padding) -/
+theorem parse_injective_mod_canon {a b p} (ha : parsePackage a = .ok p) (hb : parsePackage b = .ok p) :
+    canon a = canon b := by
+  rw [← (package_roundtrip ha).1, ← (package_roundtrip hb).1]
+
+/-- conversely, accepted byte strings with the same canonical bytes parse to the same value -/
+theorem parse_eq_of_canon_eq {a b p q} (ha : parsePackage a = .ok p) (hb : parsePackage b = .ok q)
+    (h : canon a = canon b) : p = q := by
+  have h1 := canon_accepted ha
+  have h2 := canon_accepted hb
+  rw [h, h2] at h1
+  simpa using h1.symm
+
+/-- the round trip is exact (byte for byte, no difference at all) precisely for canonical inputs -/
+theorem roundtrip_exact_iff {bs p} (hp : parsePackage bs = .ok p) : writePackage p = bs ↔ canon bs = bs := by
+  rw [(package_roundtrip hp).1]
+
 /-- the lead alone: 96 accepted bytes are reproduced exactly -/
 theorem lead_roundtrip {b l} (hp : parseLead b = .ok l) : writeLead l = b ∧ parseLead (writeLead l) = .ok l := by
   obtain ⟨rfl, wf⟩ := parseLead_ok hp
@@ -136,6 +159,14 @@ theorem wf_fixpoint {p : Package} (wf : MetadataWF p.md) :
   rw [hfix] at hp'
   simp only [Out.ok.injEq] at hp'
   rw [← hp']
+
+/-- `write` is injective on well-formed values: distinct packages never serialise to the same bytes -/
+theorem write_injective {p q : Package} (wp : MetadataWF p.md) (wq : MetadataWF q.md)
+    (h : writePackage p = writePackage q) : p = q := by
+  have h1 := (wf_fixpoint wp).1
+  have h2 := (wf_fixpoint wq).1
+  rw [h, h2] at h1
+  simpa using h1.symm
 
 /-- **a parsed package whose signature header was cleared (`clear()`) or replaced by `new_empty()`**: what is written is
 the lead, the 16-byte empty intro, the main header and the payload; those bytes are a fixpoint -/
